@@ -1,7 +1,8 @@
 /-
   C08 — a static checker for bytecode, in the style of proof-carrying code.  Core Lean only.
 
-  `safeCheck : Array VM.Instr → Bool` is an abstract interpretation of a code array.  It INFERS an
+  `safeCheck : Array VM.Instr → Bool` (defined at the end of Model/SafeVM2.lean: this layer AND the
+  kind/frame layer there) is an abstract interpretation of a code array.  This layer INFERS an
   annotation (per pc: the number of data-stack entries the current function activation owns at
   that pc) by forward propagation from the function entries, and then VERIFIES the annotation
   locally: every successor of every annotated pc — fall-through, jump target, fork target reached
@@ -224,11 +225,7 @@ def infer (code : Array Shape) (nvars : Nat) : Ann :=
 
 def checkShapes (code : Array Shape) (nvars : Nat) : Bool := verify code nvars (infer code nvars)
 
-/-- the checker, for a program compiled with `nvars` variables (`WithVariables`) -/
-def safeCheckN (nvars : Nat) (c : Array Instr) : Bool := checkShapes (c.map shape) nvars
-
-/-- the checker for a program compiled without variables -/
-def safeCheck (c : Array Instr) : Bool := safeCheckN 0 c
+-- the checker itself (`safeCheck`, both layers) is defined at the end of Model/SafeVM2.lean
 
 /-! ## what the theorems assume of the natives `_index` and `getpath` (null keys) -/
 
@@ -310,9 +307,7 @@ def shapeV (i : Opt.Instr) : Shape :=
   | "expend", _, _ => .expend | "pathbegin", _, _ => .pathbegin | "pathend", _, _ => .pathend
   | _, _, _ => .bad
 
-/-- the checker on a dumped instruction list (what the `safe` stream of the C04 check runs) -/
-def safeCheckViewN (nvars : Nat) (c : Array Opt.Instr) : Bool := checkShapes (c.map shapeV) nvars
-def safeCheckView (c : Array Opt.Instr) : Bool := safeCheckViewN 0 c
+-- the checker on a dumped instruction list (`safeCheckView`) is defined at the end of Model/SafeVM2.lean
 
 /-! ### parsing one token `op|tgt|arg` of the dump (used by the driver; glue, like `parseInstr`) -/
 
